@@ -1274,6 +1274,11 @@ class ClientObservation:
                 stacklevel=2,
             )
         if self.cancelled:
+            # The observation has ended already; the errback will be told
+            # why. The latest response (possibly the final one) is still
+            # handed over, just as it is to any other late listener.
+            if self._latest_response is not None:
+                callback(self._latest_response)
             return
 
         self.callbacks.append(callback)
